@@ -18,15 +18,18 @@ TECHNIQUE = ("Coq proof over an ideal-AEAD Section pair (seal/unseal round trip,
 LEVEL_TEXT = ("Proof (P): unseal_seal, tamper_rejected/unseal_sound/window_enforced are proved for every request under the ideal-AEAD hypotheses "
               "(visible in the statements); get_confined is proved for every path string; post_confined is REFUTED for the faithful model of the unguarded "
               "POST/PUT branch (witness /../x/<hash>, F4) and proved for the branch with the GET guard applied (which of the two the tree implements is read off a canary request). Partial: AES-GCM, net/url String/Parse, "
-              "base64 and the OS are modelled, not verified; symbolic links are outside the lexical confinement statement.")
+              "base64 and the OS are modelled, not verified; symbolic links are outside the lexical confinement statement. The gRPC service layer (getRepoPath -> getOrCreateStore -> "
+              "DBCache.Get) is modelled: confinement is REFUTED for the code as it is (repo_path '../x', absolute paths, repo_id.org '..') and proved for the validated variant; "
+              "oracle_on_model_confinement is proved for the guarded handler and service.")
 LEVEL_NOTE = ("Trusted: Coq kernel, translator (ArchiveFileSuffix, hash.StringLen), Go harness + Python glue. Hypotheses in the statements: aead_ideal "
               "(open k n c a = Some p <-> c = seal k n p a) and aead_binds (a ciphertext determines its nonce and associated data). Modelled, not verified: "
               "AES-256-GCM, base64.RawURLEncoding (fields are modelled after decoding: its padding-bit and newline malleability yields the same bytes and "
               "the same request), url.Values parsing, URL.String/url.Parse (escape, './' guard, fragment cut, control bytes; scheme detection omitted), "
               "time.Now at millisecond resolution, os.Stat/MkdirAll (NUL and NAME_MAX only), NBS store creation (observed: only the table file appears).")
-THEOREMS = ["unseal_seal", "unseal_sound", "tamper_rejected", "forged_payload_rejected", "window_enforced", "get_confined", "post_confined_guarded",
+THEOREMS = ["grpc_confined_guarded", "grpc_confined_refuted", "oracle_on_model_confinement", "unseal_seal", "unseal_sound", "tamper_rejected", "forged_payload_rejected", "window_enforced", "get_confined", "post_confined_guarded",
             "post_confined_refuted", "unseal_seal_escaped_refuted", "tamper_path_escaped_refuted", "parse_fmt_int"]
-REFUTED = ["post_confined for the POST/PUT branch as it was before the fix (no clean-and-reject; F4): post_confined_refuted — the guarded branch is proved by post_confined_guarded", "unseal_seal for paths that need percent-encoding: unseal_seal_escaped_refuted",
+REFUTED = ["confinement of the gRPC service layer as it is (getRepoPath/getOrCreateStore do not validate repo_path / repo_id: '..' and absolute paths reach DBCache.Get): grpc_confined_refuted — the validated variant is proved by grpc_confined_guarded",
+           "post_confined for the POST/PUT branch as it was before the fix (no clean-and-reject; F4): post_confined_refuted — the guarded branch is proved by post_confined_guarded", "unseal_seal for paths that need percent-encoding: unseal_seal_escaped_refuted",
            "tamper_rejected(path) for paths that need percent-encoding: tamper_path_escaped_refuted"]
 RULE = ("seal cases: URL paths (plain repo/hash paths, dot segments, doubled slashes, bytes that need percent-encoding, literal %2f, first-segment colon) x "
         "url-encoded queries x one mutation of the sealed URL (none, path, req dropped/garbled/bit-flipped/swapped with another sealed URL's, nonce "
@@ -38,7 +41,7 @@ ASSUMPTIONS = ["RawQuery of sealed URLs is a well-formed query string (no '#', n
                "lexical confinement: no symbolic links below the root (the model resolves paths as POSIX does without links)",
                "the DBCache is the standalone server's LocalCSCache (reproduced in the harness: package main cannot be imported)",
                "temporary files the NBS layer may create under os.TempDir are not counted as handler writes"]
-REQUIRED_TAGS = ["seal-ok", "seal-rej-path", "seal-rej-open", "seal-rej-window", "seal-panic-nonce", "seal-nonplain", "get-200", "get-400", "get-404",
+REQUIRED_TAGS = ["grpc-ok", "grpc-dotdot", "grpc-absolute", "grpc-repo-id", "seal-ok", "seal-rej-path", "seal-rej-open", "seal-rej-window", "seal-panic-nonce", "seal-nonplain", "get-200", "get-400", "get-404",
                  "post-200", "post-404", "post-dotdot", "mode-sealed", "mode-raw", "nul", "longname"]
 COQ_SHARD = 600
 
@@ -195,6 +198,47 @@ def gen_handle(rng):
     return c
 
 
+GRPC_METHODS = ["Root", "Rebase", "GetRepoMetadata", "GetUploadLocations"]
+GNAMES = [b"org", b"repo", b"newrepo", b"x", b"out", b"rootx", b"empty", b"solo", b"a.b", b"..x", b"x..", b"%2e%2e", b"..\\"]
+
+
+def gen_grpc(rng):
+    k = rng.random()
+    lead = [rng.choice(DOTS) for _ in range(rng.choice([0, 0, 1, 2, 3]))]
+    use_id = False
+    if k < 0.1:
+        segs = lead + [rng.choice([LONG, b"a\x00b"])] + [rng.choice(GNAMES[:8]) for _ in range(rng.randint(0, 1))]
+    elif k < 0.2:
+        # absolute paths: inside the root, a sibling of it, elsewhere in the sandbox
+        p = rng.choice([b"/SB/r1/r2/r3/r4/root/in/side", b"/SB/r1/r2/r3/r4/rootx/abs", b"/SB/r1/abs", b"/SB/r1/r2/r3/r4/root", b"/SB/r1/r2/r3/r4/root/org/new", b"/SB/abs/deep/er"])
+        c = {"kind": "grpc", "gmethod": rng.choice(GRPC_METHODS), "path": list(p), "useid": False, "org": [], "rname": []}
+        c.update(_ctx())
+        return c
+    else:
+        segs = lead + [rng.choice(GNAMES) for _ in range(rng.randint(1, 3))]
+        for _ in range(rng.choice([0, 0, 1, 2])):
+            segs.insert(rng.randint(0, len(segs)), rng.choice(DOTS))
+    while sum(1 for s_ in segs if s_ == b"..") > 4:
+        segs.remove(b"..")
+    p = b"/".join(segs)
+    while p.startswith(b"/"):
+        p = p[1:]
+    if not p:
+        p = b"."
+    c = {"kind": "grpc", "gmethod": rng.choice(GRPC_METHODS), "path": list(p), "useid": False, "org": [], "rname": []}
+    if rng.random() < 0.2 and len(segs) >= 2 and segs[0] and segs[-1] and b"\x00" not in p and LONG not in p:
+        c["useid"] = True
+        c["org"] = list(b"/".join(segs[:-1]))
+        c["rname"] = list(segs[-1])
+        if bytes(c["org"]).startswith(b"/") or not c["org"]:
+            c["useid"] = False
+    c.update(_ctx())
+    return c
+
+
+FIXED_GRPC = [("Root", b"org/repo"), ("Root", b"../x"), ("Rebase", b"../../esc/repo"), ("GetUploadLocations", b"../up"), ("GetRepoMetadata", b"/SB/r1/abs"), ("Root", b"org"),
+              ("Root", b"a\x00b"), ("Root", b"./a//b/../c"), ("Root", b".."), ("Root", b"."), ("GetUploadLocations", b"org/../../rootx/z"), ("Root", b"/SB/r1/r2/r3/r4/root/inside")]
+
 FIXED_HANDLE = [("POST", 0, b"/../x/" + HN[0]), ("PUT", 0, b"/../x/" + HN[0]), ("POST", 0, b"/../../../../esc/repo/" + HN[1]), ("POST", 0, b"/org/repo/" + HN[0]),
                 ("POST", 0, b"/org/../../rootx/" + HN[0]), ("GET", 0, b"/org/repo/" + H1), ("GET", 0, b"/../out/" + H1), ("GET", 0, b"/org/repo/../../../out/" + H1),
                 ("GET", 0, b"/org/repo/../repo/" + H1), ("GET", 0, b"/../rootx/" + H1), ("GET", 0, b"org/repo/" + H2 + b".darc"), ("GET", 0, b"/" + H1), ("GET", 0, b".."),
@@ -213,7 +257,7 @@ FIXED_SEAL = [({"path": list(b"org/repo/" + H1), "query": list(QUERIES[1])}, {"t
 
 
 def gen_cases(rng, tier):
-    ns, nh = (420, 560) if tier == "quick" else (12000, 16000)
+    ns, nh, ng = (380, 480, 200) if tier == "quick" else (12000, 16000, 6000)
     cases = []
     for u, m in FIXED_SEAL:
         cases.append({"kind": "seal", "u": u, "mut": m})
@@ -221,8 +265,16 @@ def gen_cases(rng, tier):
         c = {"kind": "handle", "mode": mode, "method": meth, "ro": False, "qbad": False, "path": list(p)}
         c.update(_ctx())
         cases.append(c)
+    for m, p in FIXED_GRPC:
+        c = {"kind": "grpc", "gmethod": m, "path": list(p), "useid": False, "org": [], "rname": []}
+        c.update(_ctx())
+        cases.append(c)
+    c = {"kind": "grpc", "gmethod": "Root", "path": [], "useid": True, "org": list(b".."), "rname": list(b"idesc")}
+    c.update(_ctx())
+    cases.append(c)
     cases += [gen_seal(rng) for _ in range(ns)]
     cases += [gen_handle(rng) for _ in range(nh)]
+    cases += [gen_grpc(rng) for _ in range(ng)]
     return cases
 
 
@@ -231,14 +283,21 @@ CANARY = {"kind": "handle", "mode": 0, "method": "POST", "ro": False, "qbad": Fa
           "root": list(ROOT), "files": [], "dirs": []}
 
 
+GCANARY = {"kind": "grpc", "gmethod": "Root", "path": list(b"../gcanary"), "useid": False, "org": [], "rname": [], "root": list(ROOT), "files": [], "dirs": []}
+
+
 def run_impl(ctx, binary, cases):
     """The model of the POST/PUT branch has a switch [guard] (clean-and-reject applied or not). Which of the two
     the tree under check implements is read off one canary request; the oracle does not depend on it."""
     can = vlib.run_harness(binary, HARNESS_RUNNER, [CANARY])[0].get("obs") or {}
     guard = can.get("status") == 400 and not can.get("touched")
+    gcan = vlib.run_harness(binary, HARNESS_RUNNER, [GCANARY])[0].get("obs") or {}
+    gguard = bool(gcan.get("gerr")) and not gcan.get("touched")
     for c in cases:
         if c.get("kind") == "handle":
             c["guard"] = guard
+        elif c.get("kind") == "grpc":
+            c["guard"] = gguard
     return vlib.run_harness(binary, HARNESS_RUNNER, cases, timeout=1800)
 
 
@@ -301,6 +360,10 @@ def coq_case(case, out):
     else:
         ctx = "{| fs_root := %s; fs_files := %s; fs_dirs := %s |}" % (
             cq_bytes(_abs(case["root"])), cq_list(cq_bytes(_abs(f)) for f in case["files"]), cq_list(cq_bytes(_abs(d)) for d in case["dirs"]))
+    if case["kind"] == "grpc":
+        i = "(IGrpc %s %s %s %s %s %s)" % (cq_bool(case.get("guard", False)), ctx, cq_bool(case["useid"]), cq_bytes(case["path"]), cq_bytes(case["org"]), cq_bytes(case["rname"]))
+        ob = "(OGrpc %s %s %s %s)" % (cq_bytes(o["cleaned"] or []), cq_bytes(o["joined"] or []), cq_bool(o["gerr"]), cq_list(cq_bytes(t) for t in (o["touched"] or [])))
+        return "(%s, %s)" % (i, ob)
     meth = {"GET": 0, "POST": 1, "PUT": 2}.get(case["method"], 3)
     i = "(IHandle %s %s %d %d %s %s %s)" % (cq_bool(case.get("guard", False)), ctx, case["mode"], meth, cq_bool(case["ro"]), cq_bool(case["qbad"]), cq_bytes(case["path"]))
     rd = "(Some %s)" % cq_bytes(o["read"] or []) if o.get("hasread") else "None"
@@ -345,6 +408,19 @@ def classify(case, out):
             t.append({1: "seal-rej-prefix", 2: "seal-rej-missing", 3: "seal-rej-int", 4: "seal-rej-nonce64", 5: "seal-rej-window", 6: "seal-rej-window",
                       7: "seal-rej-req64", 8: "seal-rej-open", 9: "seal-rej-parse", 10: "seal-rej-path"}.get(r["code"], "seal-rej-other"))
         return t
+    if case["kind"] == "grpc":
+        rp = (bytes(case["org"]) + b"/" + bytes(case["rname"])) if case["useid"] else bytes(case["path"])
+        t.append("grpc-" + case["gmethod"])
+        t.append("grpc-err" if o.get("gerr") else "grpc-ok")
+        if b".." in rp.split(b"/"):
+            t.append("grpc-dotdot")
+        if rp.startswith(b"/"):
+            t.append("grpc-absolute")
+        if case["useid"]:
+            t.append("grpc-repo-id")
+        if _outside(o):
+            t.append("OUTSIDE-ROOT")
+        return t
     p = bytes(case["path"])
     m = case["method"]
     t.append("mode-" + {0: "identity", 1: "sealed", 2: "raw"}[case["mode"]])
@@ -365,6 +441,8 @@ def classify(case, out):
 
 
 def nontrivial(case, out):
+    if case["kind"] == "grpc":
+        return True
     if case["kind"] == "seal":
         return case["mut"]["t"] != "none" or not _plain_path(bytes(case["u"]["path"]))
     o = out.get("obs") or {}
@@ -377,6 +455,8 @@ def match_known(finding, case, out):
     key = finding.get("key", "")
     if key == "remotesrv.filehandler:POST-path-not-confined":
         return case.get("kind") == "handle" and case.get("method") in ("POST", "PUT") and bool(_outside(o))
+    if key == "remotesrv.grpc:repo-path-not-confined":
+        return case.get("kind") == "grpc" and bool(_outside(o))
     if key == "remotesrv.sealer:escaped-path-roundtrip":
         # Seal puts EscapedPath() into the sealed request URI (escaped once more by String()), Unseal compares the
         # visible path with the *re-escaped* path: paths that need percent-encoding do not round-trip
